@@ -159,3 +159,6 @@ Lemma nofix_unbounded :
   exists ts, LIMIT < max_depth (parse_nofix (bound ts) ts) /\
              forallb (fun n => Nat.leb n (max_depth (parse_nofix (bound (uniform KParen n)) (uniform KParen n)))) [1; 10; 100; 600; 1000] = true.
 Proof. exists (uniform KParen 600). split; [vm_compute; lia | exact nofix_depth_grows]. Qed.
+
+Lemma parse_never_out_of_fuel ts : fst (parse ts) <> Fuel.
+Proof. apply fuel_sufficient. Qed.
